@@ -29,6 +29,9 @@ CLIPSHAPES = {
     "ringL": '<path d="M8,18 H44 V72 H8 Z M16,28 H36 V62 H16 Z"{a}/>',
     "ringR": '<path d="M54,22 H94 V78 H54 Z M63,32 H85 V68 H63 Z"{a}/>',
     "starS": '<polygon points="25,8 34,38 10,19 40,19 16,38"{a}/>',
+    # children without any region: the clip is empty (alone) / they add nothing (next to another child)
+    "empty0": '<rect x="25" y="20" width="0" height="40"{a}/>',
+    "nowidth": '<rect x="25" y="20" height="40"{a}/>',
 
 }
 RULES = ["nz", "eo", "eo-inherit", "eo-style"]
@@ -80,6 +83,8 @@ def document(children, cp_t, target, target_t, nested, ancestors):
             True: '<clipPath id="c2"><ellipse cx="52" cy="48" rx="38" ry="24"/></clipPath>',
             "star": '<clipPath id="c2"><polygon points="50,5 76,90 8,36 92,36 24,90"/></clipPath>',
             "star-eo": '<clipPath id="c2" clip-rule="evenodd"><polygon points="50,5 76,90 8,36 92,36 24,90"/></clipPath>',
+            "disjoint": '<clipPath id="c2"><rect x="80" y="75" width="15" height="20"/></clipPath>',
+            "inner-empty": '<clipPath id="c2"><rect x="30" y="30" width="0" height="20"/></clipPath>',
             "ring-childeo": '<clipPath id="c2"><path clip-rule="evenodd" d="M10,10 H90 V90 H10 Z M40,40 H60 V60 H40 Z"/><rect x="44" y="44" width="4" height="4"/></clipPath>',
         }[nested]
         defs += inner
@@ -98,7 +103,15 @@ def document(children, cp_t, target, target_t, nested, ancestors):
 
 
 def all_cases(tier):
-    shapes = [n for n in CLIPSHAPES if n not in ("ringL", "ringR", "starS")]
+    shapes = [n for n in CLIPSHAPES if n not in ("ringL", "ringR", "starS", "empty0", "nowidth")]
+    # empty clip regions: an empty child alone, next to a real child (either order), an inner clipPath that misses the outer one,
+    # an empty clip on an ancestor group
+    for e in ("empty0", "nowidth"):
+        for target, anc, cp_t in itertools.product(("shape", "group", "use"), (0, 1), (False, True)):
+            yield ([(e, "nz", False)], cp_t, target, False, False, anc)
+            yield ([(e, "nz", False), ("circle", "nz", False)], cp_t, target, False, False, anc)
+            yield ([("tri", "eo", False), (e, "nz", False)], cp_t, target, False, False, anc)
+            yield ([("rect", "nz", False)], cp_t, target, False, "disjoint" if e == "empty0" else "inner-empty", anc)
     # children with pairwise disjoint bounding boxes (a union that is a mere concatenation)
     for (a, b) in (("ringL", "ringR"), ("starS", "ringR"), ("ringR", "ringL")):
         for ra, rb in itertools.product(("nz", "eo", "eo-inherit", "eo-style"), repeat=2):
